@@ -216,6 +216,37 @@ func runC12(c *fw.Case) {
 				_ = rd.Close()
 			}
 		}
+		// a record whose header was altered is STEPPED OVER with SkipNext instead of being read: the skip may fail, but if it
+		// succeeds the reader must stand exactly behind that record — what it reads next is the following written record
+		if kind != "truncate" && kind != "file-header" && mustFailAt >= 0 && mustFailAt == okUpTo {
+			if rd, err := recordio.NewFileReader(recordio.ReaderPath(dmg), recordio.ReaderBufferSizeBytes(gen.Pick(r, 16, 37, 4096))); err == nil {
+				if rd.Open() == nil {
+					ok := true
+					for i := 0; i < okUpTo && ok; i++ {
+						if r.Intn(2) == 0 {
+							ok = rd.SkipNext() == nil
+						} else {
+							_, err := rd.ReadNext()
+							ok = err == nil
+						}
+					}
+					if ok && rd.SkipNext() == nil {
+						c.Obs("skips_over_a_record_with_an_altered_header_that_succeeded", 1)
+						for i := mustFailAt + 1; i <= len(recs); i++ {
+							got, err := rd.ReadNext()
+							if err != nil {
+								break
+							}
+							if i >= len(recs) || !sameRec(got, recs[i]) {
+								c.Violate("recordio/"+kind+"/seq-with-skips/record-out-of-order-after-skipping-a-damaged-record"+feat, "%s %s: after SkipNext over the damaged record %d, ReadNext returned %s where record %d (%s) follows", cfg, what, mustFailAt, fw.Hex(got), i, hexOrNone(recs, i))
+								break
+							}
+						}
+					}
+				}
+				_ = rd.Close()
+			}
+		}
 		// random access reader
 		mr, err := recordio.NewMemoryMappedReaderWithPath(dmg)
 		if err != nil {
